@@ -115,6 +115,18 @@ func c16Gen(g *core.Gen) {
 			g.Emit(&p2Case{Cfg: cfg, Dmg: []scen.Dmg{op}, G: 1, AutoPrune: true, Extra: []string{"c16"}})
 		}
 	}
+	// slices carrying the boundary values of the 32-bit checksum field (0, 1, 0xffffffff, 0x80000000, ...), displaced by
+	// every insert / cut of 1..slice+1 bytes at every offset of the first two slices and at the file's end
+	for _, cfg := range []scen.P2Config{{Sizes: []int{59, 20}, Slice: 8, Blocks: 4, Class: "crcfield"}, {Sizes: []int{26, 9}, Slice: 4, Blocks: 3, Class: "crcfield"}} {
+		for f := range cfg.Sizes {
+			for at := 0; at <= 2*cfg.Slice; at++ {
+				for n := 1; n <= cfg.Slice+1; n++ {
+					g.Emit(&p2Case{Cfg: cfg, Dmg: []scen.Dmg{{Op: "ins", F: f, At: at, N: n}}, G: 1, AutoPrune: true, Extra: []string{"c16"}})
+					g.Emit(&p2Case{Cfg: cfg, Dmg: []scen.Dmg{{Op: "cut", F: f, At: at, N: n}}, G: 1, AutoPrune: true, Extra: []string{"c16"}})
+				}
+			}
+		}
+	}
 	// the same displaced-slice search right after another generation of the set (same ids, other content) was decoded in this process
 	genGenerationCases(func(c *p2Case) { c.Extra = []string{"c16"}; g.Emit(c) }, true)
 	// slice sizes at and around powers of two up to 64 KiB (rolling-CRC tables are built per window length): a 5-slice
